@@ -906,10 +906,43 @@ func runHistory(r *vkit.R, id int, g *vkit.Rand, longWait bool, hungProbe bool) 
 	}
 	_ = recreated
 
+	aliasEdit := ""
 	// ---- the removal ----
 	t0 := bed.Now()
 	var sr bed.SyncResult
-	if kind == "cluster-delete" {
+	if kind == "cluster-delete" && len(namesA) > 1 && g.Bool() {
+		// The alias names were edited (one alias replaced by a new one) and the object was deleted BEFORE the controller's
+		// single worker handled the update event: the lister no longer has the object when that event is processed, so the
+		// edit is never applied and the names that are registered are not the names in the last object. Every name the
+		// cluster was (or would have been) reachable under must answer 503 afterwards.
+		edited := h.lastObj[nameA].DeepCopy()
+		newAlias := fmt.Sprintf("alias3-%d.c15.test", id)
+		names := append([]string(nil), edited.Spec.SecureServing.ServerNames...)
+		victim := strings.ToLower(names[g.Intn(len(names))])
+		var kept []string
+		for _, n := range names {
+			if strings.ToLower(n) != victim || victim == nameA {
+				kept = append(kept, n)
+			}
+		}
+		edited.Spec.SecureServing.ServerNames = append(kept, newAlias)
+		h.stamp(edited)
+		stored := h.gw.SetLister(edited)
+		removed := h.gw.RemoveFromLister(nameA)
+		delete(h.lastObj, nameA)
+		sr = h.gw.Deliver(stored) // the update event: the object is already gone from the lister
+		if removed != nil && sr.Panic == nil {
+			t := bed.Now()
+			sr2 := h.gw.Deliver(removed) // the delete event
+			_ = t
+			if sr2.Panic != nil {
+				sr = sr2
+			}
+		}
+		namesA = append(namesA, newAlias)
+		aliasEdit = "/after-unapplied-alias-edit"
+		r.Count("cluster_deletions_after_an_unapplied_alias_edit", 1)
+	} else if kind == "cluster-delete" {
 		sr = h.deleteCluster(nameA)
 	} else {
 		servers := urls(h, h.aStubs[1:])
@@ -1008,7 +1041,7 @@ func runHistory(r *vkit.R, id int, g *vkit.Rand, longWait bool, hungProbe bool) 
 				d := map[string]interface{}{"request": rid, "host": host, "names_of_the_cluster": namesA, "server_names_in_object": objA.Spec.SecureServing.ServerNames, "status": status, "received_by_stub": got}
 				which := "own-name"
 				if ni > 0 {
-					which = "alias"
+					which = "alias" + aliasEdit
 				}
 				switch {
 				case status == -1:
@@ -1261,6 +1294,7 @@ func TestCheck(t *testing.T) {
 		r.Require(r.Counter("new_requests_to_deleted_cluster") >= int64(tierN(r, 100, 1200)) && r.Counter("new_requests_to_remaining_endpoints") >= int64(tierN(r, 50, 600)), "too few new requests after removal")
 		r.Require(r.Counter("removed_targets_probe_checked") >= int64(tierN(r, 100, 1200)), "too few removed targets checked for probes")
 		r.Require(r.Counter("long_waits_after_removal") >= int64(long), "too few long waits after removal")
+		r.Require(r.Counter("cluster_deletions_after_an_unapplied_alias_edit") >= int64(tierN(r, 6, 60)), "too few cluster deletions after an alias edit that was never applied")
 		r.Require(r.Counter("endpoint_removals_by_recreation_with_equal_generation") >= int64(tierN(r, 6, 80)), "too few endpoint removals by delete-and-re-create with the generation back at the applied one")
 		r.Require(r.Counter("histories_with_tls_http2_upstreams") >= int64(tierN(r, 25, 300)) && r.Counter("target_streams_over_http2_ended") >= int64(tierN(r, 40, 500)), "too few histories with TLS/HTTP2 upstreams")
 		r.Require(r.Counter("histories_whose_cluster_had_an_earlier_deleted_incarnation") >= int64(tierN(r, 15, 200)), "too few histories with an earlier, deleted incarnation of the cluster")
